@@ -306,7 +306,7 @@ Proof.
   - (* ODropDetached *)
     destruct (st_op s o) as [r|] eqn:H; [|exact I]. destruct (o_pc r) eqn:P; try exact I.
     + assert (F : st_flock s = Some o) by (eapply (inv_crit v s I); eauto; now rewrite P).
-      apply inv_upd0; side I H P F.
+      destruct (detached_drop_closes v); apply inv_upd0; side I H P F.
     + apply inv_upd; side I H P I.
   - (* ORuntimeGone *)
     destruct (st_op s o) as [r|] eqn:H; [|exact I]. destruct (o_pc r) eqn:P; try exact I.
@@ -586,6 +586,13 @@ Proof.
   - rewrite (open_invalid v s o p opts N V). simpl. split; [reflexivity|]. now rewrite filter_data_snoc.
 Qed.
 
+(* every variant that neither truncates on open nor creates the sub-directories before the lock *)
+Theorem refused_open_touches_nothing_gen : forall v, trunc_on_open v = false -> subdirs_before_lock v = false ->
+  refused_open_touches_nothing_stmt v.
+Proof. intros v T S ops o p opts s N s' N'. apply failed_open_touches_nothing; auto. rewrite S. discriminate. Qed.
+Theorem refused_open_same_layout_touches_nothing_gen : forall v, trunc_on_open v = false ->
+  refused_open_same_layout_touches_nothing_stmt v.
+Proof. intros v T ops o p opts s N W s' N'. apply failed_open_touches_nothing; auto. Qed.
 Theorem refused_open_touches_nothing_fixed_dirs : refused_open_touches_nothing_stmt fixed_dirs.
 Proof. intros ops o p opts s N s' N'. apply failed_open_touches_nothing; auto. discriminate. Qed.
 Theorem refused_open_same_layout_touches_nothing_fixed : refused_open_same_layout_touches_nothing_stmt fixed.
@@ -632,15 +639,36 @@ Proof.
   intro H. assert (X := H wit_ops 2 0 opts_vlog eq_refl eq_refl). destruct X as [X _]. vm_compute in X. discriminate.
 Qed.
 
-(* ---- a Tree dropped outside a runtime keeps the lock (all variants): the next open is refused
-        until the runtime is shut down ---- *)
-Theorem detached_drop_reopens_refuted : forall v, ~ detached_drop_reopens_stmt v.
+(* ---- a Tree dropped outside a runtime ---- *)
+(* the code before the F28 repair (every variant with detached_drop_closes = false) keeps the lock: the next
+   open is refused until the runtime is shut down.  Regression record. *)
+Lemma drop_detached_ops_old : forall v s o r, detached_drop_closes v = false ->
+  st_op s o = Some r -> o_pc r = PLive ->
+  run v (drop_detached_ops o) s = run v [ODropDetached o] s.
 Proof.
-  intros v H.
+  intros v s o r D H P.
+  assert (E : apply_op v s (ODropDetached o) = mk (upd (st_op s) o (Some (at_pc r PDetached 1))) (st_flock s) (st_fs s) (st_log s)).
+  { unfold apply_op. rewrite H, P, D. reflexivity. }
+  unfold drop_detached_ops. rewrite !run_cons, !run_nil, E.
+  rewrite apply_step_some. unfold step_opener at 1. simpl.
+  rewrite apply_step_some. unfold step_opener at 1. simpl. reflexivity.
+Qed.
+Theorem detached_drop_reopens_old_refuted : forall v, detached_drop_closes v = false -> ~ detached_drop_reopens_old_stmt v.
+Proof.
+  intros v D H.
   assert (X := H (open_ops 1 0 plain) 1 {| o_proc := 0; o_opts := plain; o_pc := PLive; o_fds := 1 |} 2 0 plain).
-  destruct v as [[|] [|]]; vm_compute in X; specialize (X eq_refl eq_refl eq_refl eq_refl); discriminate.
+  destruct v as [[|] [|] [|]]; try discriminate D;
+    vm_compute in X; specialize (X eq_refl eq_refl eq_refl eq_refl); discriminate.
+Qed.
+Theorem detached_drop_reopens_refuted : forall v, detached_drop_closes v = false -> ~ detached_drop_reopens_stmt v.
+Proof.
+  intros v D H.
+  assert (X := H (open_ops 1 0 plain) 1 {| o_proc := 0; o_opts := plain; o_pc := PLive; o_fds := 1 |} 2 0 plain).
+  destruct v as [[|] [|] [|]]; try discriminate D;
+    vm_compute in X; specialize (X eq_refl eq_refl eq_refl eq_refl); destruct X as [X _]; discriminate.
 Qed.
 Theorem detached_drop_keeps_lock : forall v ops o r o' p' opts',
+  detached_drop_closes v = false ->
   let s := run v ops s0 in
   st_op s o = Some r -> o_pc r = PLive ->
   let s1 := run v [ODropDetached o] s in
@@ -649,11 +677,11 @@ Theorem detached_drop_keeps_lock : forall v ops o r o' p' opts',
   (op_valid opts' = true -> st_op (run v [ORuntimeGone o] s1) o' = None ->
    is_live (run v (open_ops o' p' opts') (run v [ORuntimeGone o] s1)) o' = true).
 Proof.
-  intros v ops o r o' p' opts' s H P s1 N.
+  intros v ops o r o' p' opts' D s H P s1 N.
   pose proof (inv_reach v ops) as I. fold s in I.
   assert (F : st_flock s = Some o) by (eapply (inv_crit v s I); eauto; now rewrite P).
   assert (E1 : s1 = mk (upd (st_op s) o (Some (at_pc r PDetached 1))) (Some o) (st_fs s) (st_log s)).
-  { subst s1. rewrite run_cons, run_nil. unfold apply_op. rewrite H, P, F. reflexivity. }
+  { subst s1. rewrite run_cons, run_nil. unfold apply_op. rewrite H, P, F, D. reflexivity. }
   assert (F1 : st_flock s1 = Some o) by (rewrite E1; reflexivity).
   split; [exact F1|]. split.
   - destruct (op_valid opts') eqn:V.
@@ -664,6 +692,99 @@ Proof.
     { rewrite E1, run_cons, run_nil. unfold apply_op. simpl. rewrite upd_eq. simpl. now rewrite Nat.eqb_refl. }
     destruct (open_free v _ o' p' opts' N2 V F2) as [m' [l' E]]. rewrite E.
     unfold is_live, pc_of. simpl. now rewrite upd_eq.
+Qed.
+
+(* the record for the code as it was right before the repair (variant fixed_dirs): both forms of the statement fail,
+   and concretely: opener 1 live, dropped outside its runtime -> the kernel's lock still names opener 1, opener 2
+   is refused; after the runtime is gone opener 2 gets in *)
+Corollary detached_drop_reopens_fails_fixed_dirs :
+  ~ detached_drop_reopens_stmt fixed_dirs /\ ~ detached_drop_reopens_old_stmt fixed_dirs.
+Proof. split; [apply detached_drop_reopens_refuted | apply detached_drop_reopens_old_refuted]; reflexivity. Qed.
+Theorem detached_drop_witness_fixed_dirs :
+  let s := run fixed_dirs wit_ops s0 in
+  let s1 := run fixed_dirs (drop_detached_ops 1) s in
+  let s2 := run fixed_dirs (open_ops 2 0 plain) s1 in
+  let s3 := run fixed_dirs (open_ops 2 0 plain) (run fixed_dirs [ORuntimeGone 1] s2) in
+  is_live s 1 = true /\ pc_of s1 1 = Some PDetached /\ st_flock s1 = Some 1 /\
+  st_op s2 2 = None /\ last (st_log s2) (EvGone 0) = EvRefused 2 /\ st_fs s2 = st_fs s /\
+  is_live s3 2 = true /\ st_flock s3 = Some 2.
+Proof. vm_compute. repeat split; reflexivity. Qed.
+(* the same script on the repaired code: opener 2 gets in at once, ORuntimeGone is not needed *)
+Theorem detached_drop_witness_fixed_drop :
+  let s := run fixed_drop wit_ops s0 in
+  let s1 := run fixed_drop (drop_detached_ops 1) s in
+  let s2 := run fixed_drop (open_ops 2 0 plain) s1 in
+  is_live s 1 = true /\ pc_of s1 1 = None /\ st_flock s1 = None /\
+  is_live s2 2 = true /\ st_flock s2 = Some 2 /\
+  st_log s1 = st_log s ++ [EvData 1 KShutdown; EvRelease 1; EvGone 1].
+Proof. vm_compute. repeat split; reflexivity. Qed.
+
+(* the repaired code (every variant with detached_drop_closes = true): when drop() returns the store is closed,
+   the opener gone, the lock free — and the next open succeeds at once *)
+Theorem detached_drop_releases : forall v, detached_drop_closes v = true -> detached_drop_releases_stmt v.
+Proof.
+  intros v D ops o r s H P s1.
+  pose proof (inv_reach v ops) as I. fold s in I.
+  assert (F : st_flock s = Some o) by (eapply (inv_crit v s I); eauto; now rewrite P).
+  assert (E : exists m', s1 = mk (upd m' o None) None (bump (st_fs s))
+                              ((st_log s ++ [EvData o KShutdown]) ++ [EvRelease o; EvGone o])).
+  { subst s1. rewrite (state_eta s). unfold drop_detached_ops.
+    rewrite run_cons. unfold apply_op at 1. simpl. rewrite H, P, D.
+    rewrite run_cons, apply_step_some. unfold step_opener at 1. simpl.
+    rewrite run_cons, apply_step_some. unfold step_opener at 1. simpl.
+    rewrite run_nil, F, unlock_self. eexists. reflexivity. }
+  destruct E as [m' E]. rewrite E. simpl. rewrite upd_eq, <- app_assoc. auto.
+Qed.
+Theorem detached_drop_reopens : forall v, detached_drop_closes v = true -> detached_drop_reopens_stmt v.
+Proof.
+  intros v D ops o r o' p' opts' s H P s1 N V s2.
+  destruct (detached_drop_releases v D ops o r H P) as [_ [F1 _]]. fold s in F1. fold s1 in F1.
+  destruct (open_free v s1 o' p' opts' N V F1) as [m' [l' E]]. subst s2. rewrite E.
+  unfold is_live, pc_of. simpl. rewrite upd_eq. auto.
+Qed.
+
+(* the state "dropped but kept alive by the background tasks" is unreachable for the repaired code *)
+Definition NoDet (s : state) : Prop := forall o r, st_op s o = Some r -> o_pc r <> PDetached.
+Lemma nodet_step_opener : forall v s o r, NoDet s -> st_op s o = Some r -> NoDet (step_opener v s o r).
+Proof.
+  intros v s o r L H. pose proof (L o r H) as Lo.
+  unfold step_opener. destruct (o_pc r); try exact L;
+    repeat match goal with |- context [if ?c then _ else _] => destruct c
+                      | |- context [match st_flock s with _ => _ end] => destruct (st_flock s) end;
+    intros o1 r1; simpl; intro H1; look o1 o; inv_eq; simpl; eauto; discriminate.
+Qed.
+Lemma nodet_apply : forall v s a, detached_drop_closes v = true -> NoDet s -> NoDet (apply_op v s a).
+Proof.
+  intros v s a D L. destruct a as [o p opts | o | o | o | o | o | o | p]; unfold apply_op.
+  - destruct (st_op s o) eqn:H; [exact L|]. intros o1 r1; simpl; intro H1; look o1 o; inv_eq; simpl; eauto; discriminate.
+  - destruct (st_op s o) eqn:H; [|exact L]. now apply nodet_step_opener.
+  - destruct (st_op s o) as [r|] eqn:H; [|exact L]. destruct (o_pc r); try exact L.
+    intros o1 r1; simpl; intro H1; look o1 o; inv_eq; simpl; eauto; discriminate.
+  - destruct (st_op s o) as [r|] eqn:H; [|exact L]. destruct (o_pc r); try exact L;
+    intros o1 r1; simpl; intro H1; look o1 o; inv_eq; simpl; eauto; discriminate.
+  - destruct (st_op s o) as [r|] eqn:H; [|exact L]. rewrite D. destruct (o_pc r); try exact L;
+    intros o1 r1; simpl; intro H1; look o1 o; inv_eq; simpl; eauto; discriminate.
+  - destruct (st_op s o) as [r|] eqn:H; [|exact L]. destruct (o_pc r); try exact L;
+    intros o1 r1; simpl; intro H1; look o1 o; inv_eq; simpl; eauto; discriminate.
+  - destruct (st_op s o) as [r|] eqn:H; [|exact L]. destruct (o_pc r); exact L.
+  - intros o1 r1. simpl. unfold kill_map. destruct (st_op s o1) as [r0|] eqn:H1; [|discriminate].
+    destruct (Nat.eqb (o_proc r0) p); [discriminate|]. intro. inv_eq. eauto.
+Qed.
+Lemma nodet_run : forall v ops s, detached_drop_closes v = true -> NoDet s -> NoDet (run v ops s).
+Proof.
+  intros v ops. induction ops as [|a ops IH]; intros s D L; [exact L|].
+  rewrite run_cons. apply IH; auto. now apply nodet_apply.
+Qed.
+Theorem never_detached : forall v, detached_drop_closes v = true -> never_detached_stmt v.
+Proof.
+  intros v D ops o X. unfold pc_of in X. destruct (st_op (run v ops s0) o) as [r|] eqn:H; [|discriminate].
+  inv_eq. revert H1. eapply (nodet_run v ops s0 D); eauto. intros o1 r1 H1. discriminate H1.
+Qed.
+Theorem runtime_gone_changes_nothing : forall v, detached_drop_closes v = true -> runtime_gone_changes_nothing_stmt v.
+Proof.
+  intros v D ops o s. rewrite run_cons, run_nil. unfold apply_op.
+  destruct (st_op s o) as [r|] eqn:H; [|reflexivity]. destruct (o_pc r) eqn:P; try reflexivity.
+  exfalso. apply (never_detached v D ops o). unfold pc_of. fold s. now rewrite H, P.
 Qed.
 
 (* ------------------------------------------------------------------ 4'. nobody but the owner modifies *)
@@ -688,10 +809,13 @@ Proof.
   - destruct (st_op s o) as [r|] eqn:H; [|exact L]. pose proof (L o r H). destruct (o_pc r); try exact L.
     intros o1 r1; simpl; intro H1; look o1 o; inv_eq; simpl; eauto.
   - destruct (st_op s o) as [r|] eqn:H; [|exact L]. pose proof (L o r H). destruct (o_pc r); try exact L;
+    try destruct (detached_drop_closes v);
     intros o1 r1; simpl; intro H1; look o1 o; inv_eq; simpl; eauto.
   - destruct (st_op s o) as [r|] eqn:H; [|exact L]. pose proof (L o r H). destruct (o_pc r); try exact L;
+    try destruct (detached_drop_closes v);
     intros o1 r1; simpl; intro H1; look o1 o; inv_eq; simpl; eauto.
   - destruct (st_op s o) as [r|] eqn:H; [|exact L]. pose proof (L o r H). destruct (o_pc r); try exact L;
+    try destruct (detached_drop_closes v);
     intros o1 r1; simpl; intro H1; look o1 o; inv_eq; simpl; eauto.
   - destruct (st_op s o) as [r|] eqn:H; [|exact L]. destruct (o_pc r); exact L.
   - intros o1 r1. simpl. unfold kill_map. destruct (st_op s o1) as [r0|] eqn:H1; [|discriminate].
@@ -730,11 +854,11 @@ Proof.
         rewrite (lock_after_open_same v _ T Lk), lcontent_eqb_refl. simpl. eauto.
       * destruct (negb _); eauto.
     + destruct (st_flock s); simpl; rewrite ?fold_left_app, ?Q; simpl; eauto.
-  - destruct (o_pc r); eauto; simpl; rewrite ?fold_left_app, ?Q; simpl; eauto.
-  - destruct (o_pc r); eauto; simpl; rewrite ?fold_left_app, ?Q; simpl; eauto.
-  - destruct (o_pc r); eauto; simpl; rewrite ?fold_left_app, ?Q; simpl; eauto.
-  - destruct (o_pc r); eauto; simpl; rewrite ?fold_left_app, ?Q; simpl; eauto.
-  - destruct (o_pc r); eauto; simpl; rewrite ?fold_left_app, ?Q; simpl; eauto.
+  - destruct (o_pc r); eauto; try destruct (detached_drop_closes v); simpl; rewrite ?fold_left_app, ?Q; simpl; eauto.
+  - destruct (o_pc r); eauto; try destruct (detached_drop_closes v); simpl; rewrite ?fold_left_app, ?Q; simpl; eauto.
+  - destruct (o_pc r); eauto; try destruct (detached_drop_closes v); simpl; rewrite ?fold_left_app, ?Q; simpl; eauto.
+  - destruct (o_pc r); eauto; try destruct (detached_drop_closes v); simpl; rewrite ?fold_left_app, ?Q; simpl; eauto.
+  - destruct (o_pc r); eauto; try destruct (detached_drop_closes v); simpl; rewrite ?fold_left_app, ?Q; simpl; eauto.
   - simpl. unfold kill_log. rewrite fold_left_app, Q.
     destruct (st_flock s) as [x|]; simpl; eauto. destruct (st_op s x) as [rx|]; simpl; eauto.
     destruct (Nat.eqb (o_proc rx) p); simpl; eauto.
@@ -754,6 +878,15 @@ Proof.
   - intros SB o p opts X. apply (SL SB o p opts). now right.
 Qed.
 
+Theorem no_foreign_modification_all : forall v, trunc_on_open v = false -> subdirs_before_lock v = false ->
+  no_foreign_modification_stmt v.
+Proof.
+  intros v T S ops. unfold quiet.
+  assert (X : tracked (run v ops s0)).
+  { apply (no_foreign_modification_gen v false false T); try (intro X; rewrite S in X; discriminate X);
+      [apply inv_s0 | reflexivity]. }
+  unfold tracked in X. now rewrite X.
+Qed.
 Theorem no_foreign_modification_fixed_dirs : no_foreign_modification_stmt fixed_dirs.
 Proof.
   intros ops. unfold quiet.
